@@ -159,6 +159,13 @@ func c12MutateCoord(r *core.Rand, x, y []byte) (nx, ny []byte, kind string) {
 		}
 		return ref.Pad32(sx), ref.Pad32(sy), "none"
 	}
+	if r.Chance(1, 10) { // small y: the alias y+p fits in 32 bytes and must be refused
+		sx, sy := smallYPoint(r)
+		if r.Chance(3, 4) {
+			return ref.Pad32(sx), ref.Pad32(new(big.Int).Add(sy, ref.SM2P)), "wire:+p"
+		}
+		return ref.Pad32(sx), ref.Pad32(sy), "none"
+	}
 	if r.Chance(1, 6) {
 		if rx, ry, kind, ok := residualPoint(r); ok {
 			return ref.Pad32(rx), ref.Pad32(ry), "wire:residual:" + kind
